@@ -337,7 +337,7 @@ WebSocketMsg WebSocket::receive()
 			break;
 		}
 
-		if (fin)
+		if (fin && opcode < 8) // a control frame (ping/pong) between fragments does not end the data message
 			haveMsg = true;
 	}
 
